@@ -319,7 +319,7 @@ func propC18(c *Ctx) {
 	propScaleCollections(c)
 	propScaleExpressions(c, "C18")
 	g := newExGen(c)
-	g.vars = []string{"a", "A", "b", "xyz", "XyZ", "_v1", "\"my var\"", "\"MY VAR\"", "é1", "É1", "iſ_x", "IS_X", "\"a\"", "Max", "null_1"}
+	g.vars = []string{"a", "A", "b", "xyz", "XyZ", "_v1", "\"my var\"", "\"MY VAR\"", "é1", "É1", "iſ_x", "IS_X", "\"a\"", "Max", "null_1", "\"a[\"", "\"a{\"", "\"f@\"", "\"f`\""}
 	g.consts = append(g.consts, "'a'", "'xyz'")
 	g.funcs = []string{"Max", "a", "xyz", "If"}
 	n := 1500
@@ -331,7 +331,8 @@ func propC18(c *Ctx) {
 		expr := g.render(g.toks(e, 0, c.Rng.Intn(3)), c.Rng.Intn(2) == 0)
 		runVarsCase(c, e, expr)
 	}
-	namePool := []string{"a", "A", "b", "B", "ab", "Ab", "é", "É", "x y", "iſ", "IS", "K", "k", "ı", "I", "i"}
+	// names that differ in one bit of a character that is no letter are different names
+	namePool := []string{"a", "A", "b", "B", "ab", "Ab", "é", "É", "x y", "iſ", "IS", "K", "k", "ı", "I", "i", "a[", "a{", "f@", "f`", "x^", "x~", "n]", "n}", "q\\", "q|", "t\x00", "t "}
 	for i := 0; i < n; i++ {
 		k := 1 + c.Rng.Intn(5)
 		names := make([]string, k)
